@@ -270,8 +270,8 @@ def run(tier, seed, only=None):
         nominal = {}
         for s_ in surfaces:
             mv = K.rect_mesh(s_["mesh"].shape[0], s_["mesh"].shape[1], s_["symmetry"], jitter=0.25, seed=7)
-            if s_["name"] != "s0":
-                mv = mv + np.array([6.0, 0.0, 0.5])
+            k_ = int(s_["name"][1:])
+            mv = mv + np.array([6.0 * k_, 0.0, 0.5 * k_])
             for idx in np.ndindex(*mv.shape):
                 nominal["%s_def_mesh[%s]" % (s_["name"], ",".join(map(str, idx)))] = float(mv[idx])
         nominal.update({"cg[0]": 0.5, "cg[1]": 0.0, "cg[2]": 0.1, "omega[0]": 0.02, "omega[1]": 0.03, "omega[2]": -0.01})
@@ -279,12 +279,83 @@ def run(tier, seed, only=None):
 
         run_obligations(rep, "pipeline vs reference [%s]" % cn, obs, timeout, replay=rp, levels=(1, 2), relate=[],
                         family=lambda ob: "VLM: " + ob.meta["family"], fixed={"alpha": 3.0, "beta": 2.0, "v": 10.0, "rho": 1.1}, nominal=nominal)
+    aeropoint_level(rep, tier, timeout)
     rep.stubs.add("vortex kernels -> uninterpreted functions on both sides (kernel == textbook formula, antisymmetry and derivative contracts are separate obligations)")
     rep.bounds = {"cases": [c[0] for c in cfgs]}
     rep.assumptions = ["real arithmetic", "LAPACK LU accuracy not modelled: the equation being solved is compared", "rotational onset velocity omega x (p - cg) as the code defines it",
                        "non-degenerate panels (non-zero diagonal cross product), evaluation points off the vortex lines"]
     return rep.finish("C05: AIC, right-hand side, tangency residual and panel forces of the real pipeline == an independently written panel/"
                       "corner Biot-Savart model, entry by entry; kernel == textbook formula as separate lemmas")
+
+
+def aeropoint_level(rep, tier, timeout):
+    """The real AeroPoint group executed through its own wiring (GroupPipe): the residual of its implicit solve is the
+    tangency condition of the reference, its sectional forces are the Kutta-Joukowski forces of the reference, and its
+    per-surface lift/drag are the wind-axis components of the summed reference forces."""
+    from props import groups
+
+    cfgs = [("symL_3x3+full_2x3", [(3, 3, True, False), (2, 3, False, False)])]
+    if tier == "thorough":
+        cfgs += [("symR_2x3+symL_4x2+full_3x3", [(2, 3, True, True), (4, 2, True, False), (3, 3, False, False)])]
+    for (cn, spec) in cfgs:
+        surfaces = [K.surface(nx, ny, symm, right=right, name="s%d" % k) for k, (nx, ny, symm, right) in enumerate(spec)]
+        meshes = {s["name"]: symarray(s["name"] + "_def_mesh", s["mesh"].shape) for s in surfaces}
+        for s, (nx_, ny_, symm_, right_) in zip(surfaces, spec):
+            if symm_:
+                for i in range(nx_):
+                    meshes[s["name"]][i, 0 if right_ else ny_ - 1, 1] = ZERO
+        npan = sum((s["mesh"].shape[0] - 1) * (s["mesh"].shape[1] - 1) for s in surfaces)
+        gam = symarray("circulations", (npan,))
+        om_, cg = symarray("omega", (3,)), symarray("cg", (3,))
+        G = groups.aeropoint_symbolic(surfaces, meshes, rotational=True, circulations=gam, external={"omega": om_, "cg": cg})
+        G.encode(rep)
+        al, be, v, rho = var("alpha"), var("beta"), var("v"), var("rho")
+        # the flight-condition symbols are created by the pipe under their promoted names: scalars of shape (1,)
+        al, be, v, rho = (G.get("flight." + n)[0] if False else G.vals["flight." + n][0] for n in ("alpha", "beta", "v", "rho"))
+        refs = [RefSurface(meshes[s["name"]], s["symmetry"]) for s in surfaces]
+        ref = reference(refs, al, be, v, omega=om_, cg=cg)
+        Fref = ref_forces(ref, gam, rho)
+        obs = []
+        R = G.resid["aero_point_0.aero_states.solve_matrix.circulations"]
+        for r in range(npan):
+            nv = sum((ref["mtx"][r, c] * gam[c] for c in range(npan)), ZERO) - ref["rhs"][r]
+            obs.append(oblig.Ob("AeroPoint tangency residual[%d]" % r, lhs=S(R[r]), rhs=nv, meta={"family": "AeroPoint solves the flow-tangency condition of the reference", "kind": "res", "idx": [r]}))
+        off = 0
+        for s in surfaces:
+            nxm, nym = s["mesh"].shape[0] - 1, s["mesh"].shape[1] - 1
+            F = G.get("aero_point_0.aero_states." + s["name"] + "_sec_forces")
+            tot = [ZERO, ZERO, ZERO]
+            for i in range(nxm):
+                for j in range(nym):
+                    r = off + i * nym + j
+                    for k in range(3):
+                        obs.append(oblig.Ob("AeroPoint %s_sec_forces[%d,%d,%d]" % (s["name"], i, j, k), lhs=F[i, j, k], rhs=Fref[r, k],
+                                            meta={"family": "AeroPoint sectional forces are the Kutta-Joukowski forces of the reference", "kind": "F", "idx": [r, k]}))
+                        tot[k] = tot[k] + Fref[r, k]
+            off += nxm * nym
+            fac = 2 if s["symmetry"] else 1
+            a_, b_ = al * PI / 180, be * PI / 180
+            Lref = (-sin(a_) * tot[0] + cos(a_) * tot[2]) * fac
+            Dref = (cos(a_) * cos(b_) * tot[0] - sin(b_) * tot[1] + sin(a_) * cos(b_) * tot[2]) * fac
+            obs.append(oblig.Ob("AeroPoint %s L" % s["name"], lhs=G.get("aero_point_0." + s["name"] + "_perf.L")[0], rhs=Lref, meta={"family": "per-surface lift is the wind-axis component of the summed reference forces", "kind": "L"}))
+            obs.append(oblig.Ob("AeroPoint %s D" % s["name"], lhs=G.get("aero_point_0." + s["name"] + "_perf.D")[0], rhs=Dref, meta={"family": "per-surface induced drag is the wind-axis component of the summed reference forces", "kind": "L"}))
+
+        def rp(ob, env, surfaces=surfaces, meshes=meshes, npan=npan):
+            if ob.meta["kind"] == "L":
+                return None, "group-level lift/drag: replay through the force comparison"
+            return replay(ob, env, surfaces, meshes, npan)
+
+        nominal = {}
+        for s_ in surfaces:
+            mv = K.rect_mesh(s_["mesh"].shape[0], s_["mesh"].shape[1], s_["symmetry"], right=(abs(s_["mesh"][0, 0, 1]) < abs(s_["mesh"][0, -1, 1])), jitter=0.25, seed=7)
+            k_ = int(s_["name"][1:])
+            mv = mv + np.array([6.0 * k_, 0.0, 0.5 * k_])
+            for idx in np.ndindex(*mv.shape):
+                nominal["%s_def_mesh[%s]" % (s_["name"], ",".join(map(str, idx)))] = float(mv[idx])
+        nominal.update({"cg[0]": 0.5, "cg[1]": 0.0, "cg[2]": 0.1, "omega[0]": 0.02, "omega[1]": 0.03, "omega[2]": -0.01})
+        nominal.update({"circulations[%d]" % i: -0.7 - 0.1 * i for i in range(npan)})
+        run_obligations(rep, "real AeroPoint group vs reference [%s]" % cn, obs, timeout, replay=rp, levels=(1, 2), relate=[], nominal=nominal,
+                        family=lambda ob: "AeroPoint: " + ob.meta["family"], fixed={"alpha[0]": 3.0, "beta[0]": 2.0, "v[0]": 10.0, "rho[0]": 1.1})
 
 
 def numeric_reference(surfaces, meshv, alpha, beta, v, omega, cg):
@@ -320,6 +391,10 @@ def numeric_reference(surfaces, meshv, alpha, beta, v, omega, cg):
     n = len(pan)
     A = np.zeros((n, n))
     b = np.zeros(n)
+    Vf = np.zeros((n, n, 3))
+    onset = np.zeros((n, 3))
+    bound = np.zeros((n, 3))
+    prev = -np.ones(n, dtype=int)
 
     def ring(P, q, i, j, last, mirror):
         M = np.array([1, -1, 1]) if mirror else np.ones(3)
@@ -335,12 +410,20 @@ def numeric_reference(surfaces, meshv, alpha, beta, v, omega, cg):
         nr = np.cross(m[i, j + 1] - m[i + 1, j], m[i, j] - m[i + 1, j + 1])
         nr /= np.linalg.norm(nr)
         b[r] = -nr.dot(vinf + np.cross(omega, Pc - cg))
+        onset[r] = vinf + np.cross(omega, Pc - cg)
+        Pq = 0.5 * (0.75 * m[i, j] + 0.25 * m[i + 1, j]) + 0.5 * (0.75 * m[i, j + 1] + 0.25 * m[i + 1, j + 1])
+        bound[r] = q[i, j] - q[i, j + 1]
+        if i > 0:
+            prev[r] = r - (m.shape[1] - 1)
         for c, (s2, m2, q2, i2, j2) in enumerate(pan):
             V = ring(Pc, q2, i2, j2, i2 == m2.shape[0] - 2, False)
+            W = ring(Pq, q2, i2, j2, i2 == m2.shape[0] - 2, False)
             if s2["symmetry"]:
                 V = V + ring(Pc, q2, i2, j2, i2 == m2.shape[0] - 2, True)
+                W = W + ring(Pq, q2, i2, j2, i2 == m2.shape[0] - 2, True)
             A[r, c] = nr.dot(V)
-    return A, b
+            Vf[r, c] = W
+    return A, b, {"Vf": Vf, "onset": onset, "bound": bound, "prev": prev}
 
 
 def replay(ob, env, surfaces, meshes, npan):
@@ -349,6 +432,9 @@ def replay(ob, env, surfaces, meshes, npan):
     from openaerostruct.aerodynamics.states import VLMStates
 
     envf = model.FillEnv(env)
+    for k_ in ("alpha", "beta", "v", "rho"):
+        if k_ + "[0]" in envf and k_ not in envf:
+            envf[k_] = envf[k_ + "[0]"]
     meshv = {n: num_inputs({"m": m}, envf)["m"] for n, m in meshes.items()}
     omega = np.array([envf["omega[%d]" % k] for k in range(3)])
     cg = np.array([envf["cg[%d]" % k] for k in range(3)])
@@ -369,7 +455,7 @@ def replay(ob, env, surfaces, meshes, npan):
     prob.model.add_subsystem("states", VLMStates(surfaces=surfaces, rotational=True), promotes=["*"])
     prob.setup()
     prob.run_model()
-    A, b = numeric_reference(surfaces, meshv, envf["alpha"], envf["beta"], envf["v"], omega, cg)
+    A, b, aux = numeric_reference(surfaces, meshv, envf["alpha"], envf["beta"], envf["v"], omega, cg)
     Ac, bc = np.array(prob.get_val("mtx")), np.array(prob.get_val("rhs"))
     k = ob.meta["kind"]
     if k == "mtx":
@@ -384,8 +470,14 @@ def replay(ob, env, surfaces, meshes, npan):
         r = ob.meta["idx"][0]
         return abs(res[r]) > 1e-6 * (1 + abs(b[r])), "normal velocity of the independent model at collocation point %d with the real circulations = %.3g" % (r, res[r])
     if k == "F":
-        # forces with the real circulations through the independent model are compared in the quantity the property names
-        return None, "force replay uses the AIC/rhs comparison"
+        # Kutta-Joukowski with the real (converged) circulations through the independent model
+        gam = np.array(prob.get_val("circulations"))
+        r, c3 = ob.meta["idx"]
+        ghs = gam[r] - (gam[aux["prev"][r]] if aux["prev"][r] >= 0 else 0.0)
+        V = aux["onset"][r] + np.einsum("ck,c->k", aux["Vf"][r], gam)
+        ref = float(envf["rho"]) * ghs * np.cross(V, aux["bound"][r])[c3]
+        got = np.array(prob.get_val("panel_forces"))[r, c3]
+        return model.differs(got, ref, 1e-6), "real panel_forces[%d,%d] = %.9g, rho * Gamma_hs * (V x l) of the independent model = %.9g" % (r, c3, got, ref)
     return None, "no replay"
 
 
